@@ -38,6 +38,7 @@ POLICIES = {
     "nosession_h": dict(session="refuse-with-handle"),
     "notcp": dict(),
     "nofclose": dict(fclose="refuse"),
+    "svc6": dict(), "svc8": dict(large_fo="refuse08"),
     # a target that is out of connections at first: the first 1 / 2 Forward Opens are refused, later ones accepted
     "busy1": dict(fo_refuse_first=1),
     "busy2": dict(fo_refuse_first=2),
@@ -75,7 +76,10 @@ class Run:
 
             dev = c18.new_table(0)
         elif drv == "cip":
-            dev = enip.IdentityDevice()
+            # policies svc6 / svc8: the device answers every Identity request with a service error (6 = partial transfer, not
+            # legitimate for this service; 8 = service not supported): calls must come back falsy, the lifecycle must not derail
+            st = {"svc6": 6, "svc8": 8}.get(polname)
+            dev = enip.IdentityDevice((lambda req, info: (st, [], b"\x01\x02\x03\x04") if req.path[:1] == [("class", 1)] else None) if st else None)
         else:
             dev = logix.LogixController(tiny_project(), "v32")
         self.t = enip.Target(dev, enip.Policy(**POLICIES[polname]), keep_cip=False)
@@ -169,6 +173,8 @@ class Run:
         tag = f"{ev}{'+' + fault[1] if fault else ''}"
         if out[0] == "foreign":
             self.violations.append(("I3-foreign-exception", f"{tag}: {out[1]}: {out[2]}"))
+        if self.polname in ("svc6", "svc8") and self.drv == "cip" and ev in ("gen_c", "gen_u", "with_ok") and out[0] == "ok" and out[1] not in (None, "user-exception-propagated") and bool(out[1]):
+            self.violations.append(("I3-service-error-accepted", f"{tag}: the target answered with a service error but the call returned {out[1]!r:.80}"))
         if out[0] == "hang":
             self.violations.append(("I6-hang", f"{tag}: I/O budget exceeded"))
         for etag, detail in t.events[n_ev:]:
